@@ -387,6 +387,14 @@ namespace boost { namespace gil {
 
 namespace detail {
 
+/// Planar pixel iterators are color bases of channel pointers; std::fill is applied per channel plane.
+/// (A stepped view of a planar image is planar too, but its x-iterator is a step iterator, which is
+/// filled pixel by pixel.)
+template <typename It>
+struct is_planar_pixel_iterator : std::false_type {};
+template <typename ChannelPtr, typename ColorSpace>
+struct is_planar_pixel_iterator<planar_pixel_iterator<ChannelPtr, ColorSpace>> : std::true_type {};
+
 /// struct to do std::fill
 struct std_fill_t {
     template <typename It, typename P>
@@ -422,13 +430,15 @@ void fill_pixels(View const& view, Value const& value)
     if (view.is_1d_traversable())
     {
         detail::fill_aux(
-            view.begin().x(), view.end().x(), value, is_planar<View>());
+            view.begin().x(), view.end().x(), value,
+            detail::is_planar_pixel_iterator<typename View::x_iterator>());
     }
     else
     {
         for (std::ptrdiff_t y = 0; y < view.height(); ++y)
             detail::fill_aux(
-                view.row_begin(y), view.row_end(y), value, is_planar<View>());
+                view.row_begin(y), view.row_end(y), value,
+                detail::is_planar_pixel_iterator<typename View::x_iterator>());
     }
 }
 
